@@ -486,6 +486,95 @@ func checkCarriers(c *vm.Ctx, r *vm.Rand, g *nbtgen.G) {
 // checkStringified: a StringifiedMessage obtained by decoding must survive Marshal -> Unmarshal unchanged
 // (the universe's round-trip clause for this carrier type). The documents are restricted to what C04
 // establishes as faithfully convertible.
+// checkCarrierReuse: a carrier that decodes a second value holds the second value - when one variable is decoded
+// into twice, and when a compound repeats a name so that the same struct field is decoded twice within one document.
+func checkCarrierReuse(c *vm.Ctx, r *vm.Rand, g *nbtgen.G) {
+	first, second := g.Doc(0), g.Doc(0)
+	if r.Bool() { // the interesting case: two compounds with different members
+		first, second = g.Doc(refnbt.Compound), g.Doc(refnbt.Compound)
+	}
+	d1, d2 := refnbt.Encode(first, "", true), refnbt.Encode(second, "", true)
+	wit := func() any {
+		return map[string]any{"first_doc_hex": vm.Hex(d1), "second_doc_hex": vm.Hex(d2), "second_tree": refnbt.Describe(second)}
+	}
+	c.Eval(vm.Hash64(d1, d2, []byte("carrier-reuse")), true)
+	reenc := func(v any) []byte {
+		var b bytes.Buffer
+		e := nbt.NewEncoder(&b)
+		e.NetworkFormat(true)
+		if err := e.Encode(v, ""); err != nil {
+			return []byte("encode error: " + err.Error())
+		}
+		return b.Bytes()
+	}
+	// (a) one variable, two Unmarshal calls
+	var dv dynbt.Value
+	var rm nbt.RawMessage
+	ok := true
+	c.Guard("carrier-reuse/decode", wit, func() {
+		for _, d := range [][]byte{d1, d2} {
+			dec := nbt.NewDecoder(bytes.NewReader(d))
+			dec.NetworkFormat(true)
+			if _, err := dec.Decode(&dv); err != nil {
+				c.Violation("carrier-reuse/dynbt/decode-error", "dynbt.Value refuses a well-formed document: "+err.Error(), wit())
+				ok = false
+				return
+			}
+			dec = nbt.NewDecoder(bytes.NewReader(d))
+			dec.NetworkFormat(true)
+			if _, err := dec.Decode(&rm); err != nil {
+				c.Violation("carrier-reuse/raw/decode-error", "RawMessage refuses a well-formed document: "+err.Error(), wit())
+				ok = false
+				return
+			}
+		}
+	})
+	if !ok {
+		return
+	}
+	if got := reenc(&dv); !bytes.Equal(got, d2) {
+		c.Violation("carrier-reuse/dynbt/second-decode-not-byte-exact/"+carrierClass(second), fmt.Sprintf("a dynbt.Value decoded twice re-encodes %s, the document it decoded last is %s", vm.Hex(got), vm.Hex(d2)), wit())
+		return
+	}
+	if got := reenc(rm); !bytes.Equal(got, d2) {
+		c.Violation("carrier-reuse/raw/second-decode-not-byte-exact/"+carrierClass(second), fmt.Sprintf("a RawMessage decoded twice re-encodes %s, the document it decoded last is %s", vm.Hex(got), vm.Hex(d2)), wit())
+		return
+	}
+	// (b) one document naming the field twice: {a: first, a: second}
+	dup := &refnbt.Value{Tag: refnbt.Compound, Comp: []refnbt.Entry{{Name: "a", V: first}, {Name: "a", V: second}}}
+	dd := refnbt.Encode(dup, "", true)
+	var hd struct {
+		A dynbt.Value `nbt:"a"`
+	}
+	var hr struct {
+		A nbt.RawMessage `nbt:"a"`
+	}
+	var e1, e2 error
+	if c.Guard("carrier-reuse/repeated-name", wit, func() {
+		dec := nbt.NewDecoder(bytes.NewReader(dd))
+		dec.NetworkFormat(true)
+		_, e1 = dec.Decode(&hd)
+		dec = nbt.NewDecoder(bytes.NewReader(dd))
+		dec.NetworkFormat(true)
+		_, e2 = dec.Decode(&hr)
+	}) {
+		return
+	}
+	if e1 == nil {
+		if got := reenc(&hd.A); !bytes.Equal(got, d2) {
+			c.Violation("carrier-reuse/dynbt/repeated-name-not-byte-exact/"+carrierClass(second), fmt.Sprintf("a dynbt.Value field named twice in one compound re-encodes %s, the value it decoded last is %s", vm.Hex(got), vm.Hex(d2)), wit())
+			return
+		}
+	}
+	if e2 == nil {
+		if got := reenc(hr.A); !bytes.Equal(got, d2) {
+			c.Violation("carrier-reuse/raw/repeated-name-not-byte-exact/"+carrierClass(second), fmt.Sprintf("a RawMessage field named twice in one compound re-encodes %s, the value it decoded last is %s", vm.Hex(got), vm.Hex(d2)), wit())
+			return
+		}
+	}
+	c.Cover("carrier-reuse.byte-exact")
+}
+
 func checkStringified(c *vm.Ctx, r *vm.Rand, g *nbtgen.G) {
 	tree := g.Doc(refnbt.Compound)
 	wrapTree := &refnbt.Value{Tag: refnbt.Compound, Comp: []refnbt.Entry{{Name: "a", V: refnbt.In(5)}, {Name: "c", V: tree}, {Name: "z", V: refnbt.St("end")}}}
@@ -769,6 +858,9 @@ func run(c *vm.Ctx) {
 	g := nbtgen.New(cr, cfg)
 	for i := 0; i < c.Scale(8000, 200000); i++ {
 		checkCarriers(c, cr, g)
+	}
+	for i := 0; i < c.Scale(3000, 60000); i++ {
+		checkCarrierReuse(c, cr, g)
 	}
 	sr := c.Rand("snbt")
 	scfg := cfg
